@@ -995,6 +995,38 @@ impl Rig {
                 ));
                 verif::trace::emit(json!({"e": "ProvisionTimeup"}));
             }
+            "silent_host" => {
+                // a host endpoint that neither accepts nor refuses: a listening socket with backlog 0 that nobody accepts from,
+                // its accept queue filled by this op -- further SYNs are dropped by the kernel and a connect() to it stays
+                // pending (what an unreachable / overloaded IMDS or WireServer looks like)
+                let addr: SocketAddr = st["addr"].as_str().unwrap().parse().unwrap();
+                let mut filled = 0;
+                unsafe {
+                    let fd = libc::socket(libc::AF_INET, libc::SOCK_STREAM, 0);
+                    let one: libc::c_int = 1;
+                    libc::setsockopt(fd, libc::SOL_SOCKET, libc::SO_REUSEADDR, &one as *const _ as *const libc::c_void, 4);
+                    let mut sa: libc::sockaddr_in = std::mem::zeroed();
+                    sa.sin_family = libc::AF_INET as u16;
+                    if let SocketAddr::V4(v4) = addr {
+                        sa.sin_port = v4.port().to_be();
+                        sa.sin_addr.s_addr = u32::from_ne_bytes(v4.ip().octets());
+                    }
+                    let ok = libc::bind(fd, &sa as *const _ as *const libc::sockaddr, std::mem::size_of::<libc::sockaddr_in>() as u32) == 0
+                        && libc::listen(fd, 0) == 0;
+                    if ok {
+                        // never closed, never accepted from (leaked on purpose for the life of the process)
+                        for _ in 0..4 {
+                            if let Ok(c) = TcpStream::connect_timeout(&addr, Duration::from_millis(300)) {
+                                filled += 1;
+                                std::mem::forget(c);
+                            }
+                        }
+                    }
+                }
+                // probe: a further connect must now stay pending
+                let pending = TcpStream::connect_timeout(&addr, Duration::from_millis(700)).is_err();
+                verif::trace::emit(json!({"e": "SilentHost", "addr": st["addr"], "filled": filled, "connect_stays_pending": pending}));
+            }
             "mark_host_requests" => HOST_TARGETS.lock().unwrap().clear(), // count from here
             "wait_host_requests" => {
                 // wait until the mock hosts have received n requests whose target starts with the given prefix
